@@ -246,6 +246,63 @@ def check_empty_variables(ci: int, which: int) -> bool:
                                       "headers": {"Content-Type": "application/json"}}
 
 
+def _two_calls(ci, k1, k2, same_instance, upload_first):
+    """history: a second call must not be influenced by the kwargs / variables of an earlier call (same or other instance)"""
+    import importlib
+    import sys
+
+    name, cls, is_async, tracer = CLIENTS[ci]
+    # every explored path starts from a freshly loaded client module, so that state a call leaves behind at module or class
+    # level is visible as a history effect *of this path* (and the counterexample replays in a fresh interpreter)
+    mod = importlib.reload(sys.modules[cls.__module__])
+    if hasattr(mod, "set_span_in_context"):
+        mod.set_span_in_context = lambda *a, **k: None
+    cls = getattr(mod, cls.__name__)
+
+    def mk():
+        c = cls.__new__(cls)
+        c.url, c.headers = "http://x/graphql", None
+        c.http_client = AsyncRecorder() if is_async else Recorder()
+        c.tracer = FakeTracer() if tracer else None
+        c.root_span_name, c.root_context = "r", None
+        return c
+
+    def run(c, variables, kwargs):
+        if is_async:
+            co = c.execute("query Q { a }", "Q", variables, **kwargs)
+            try:
+                co.send(None)
+            except StopIteration:
+                pass
+        else:
+            c.execute("query Q { a }", "Q", variables, **kwargs)
+
+    c1 = mk()
+    run(c1, {"a": UP_A} if upload_first else {"a": 1}, dict(KW[k1]))
+    c2 = c1 if same_instance else mk()
+    n_before = len(c2.http_client.calls)
+    run(c2, {"a": 2}, dict(KW[k2]))
+    calls = c2.http_client.calls[n_before:]
+    if len(calls) != 1:
+        return False
+    kind, got = normalise(calls[0])
+    ekind, exp = expected_request([("a", 2, 2, [])], KW[k2])
+    return kind == ekind and got == exp
+
+
+def check_call_history(ci: int, k1: int, k2: int, same_instance: bool, upload_first: bool) -> bool:
+    """
+    post: _
+    """
+    c, a, b = pick(ci, len(CLIENTS)), pick(k1, len(KW)), pick(k2, len(KW))
+    si, uf = (True if same_instance else False), (True if upload_first else False)
+    with NoTracing():
+        try:
+            return _two_calls(c, a, b, si, uf)
+        except Exception:
+            return False
+
+
 def parts_source() -> str:
     out = ["from harness.C11_requests import _check", ""]
     for ci, (name, _c, _a, _t) in enumerate(CLIENTS):
